@@ -34,9 +34,12 @@ NULLS = {
     "-99999.25": (["-99999.25", "-9.999925E4"], ["-99999.2", "-99999.3"]),
     "1234567.5": (["1234567.5", "1.2345675E6"], ["1234567", "1234570"]),
     "100000": (["1E5", "100000.0"], ["1E6"]),
+    # explicit '+' in the exponent of the header spelling (what str() of a large float gives, so what the writer emits)
+    "-9.9925E+02": (["-999.25", "-9.9925e2"], ["-9.9925E+03"]),
+    "1e+25": (["1E25", "1.0e+25"], ["1e+24", "-1e+25"]),
 }
 BOUNDS = {
-    "quick": {"nulls": ["-999.25", "-9.9925E2", "999.25", "0", "-99999.25"], "pad_cap": 1, "task_budget_s": 900},
+    "quick": {"nulls": ["-999.25", "-9.9925E2", "999.25", "0", "-99999.25", "-9.9925E+02", "1e+25"], "pad_cap": 1, "task_budget_s": 900},
     "thorough": {"nulls": list(NULLS), "pad_cap": 2, "task_budget_s": 3000},
 }
 ASSUMPTIONS = [
